@@ -142,6 +142,10 @@ def build_df(ds, rows, layout, rng=None):
         c = list(df.columns)
         random.Random(layout["col_perm"]).shuffle(c)
         df = df[c]
+    if layout.get("row_labels") and not (layout["where"] == "index" and idx_cols):
+        # the rows keep labels of their own (cut out of a longer table, numbered from 1): not 0..n-1, not years
+        n_ = len(df)
+        df.index = list(range(1, n_ + 1)) if layout["row_labels"] == "from1" else list(range(7, 7 + 3 * n_, 3))
     if layout["where"] == "index" and idx_cols:
         df = df.set_index(idx_cols)
         if layout["header"] == "items":
